@@ -244,7 +244,7 @@ Proof. intros q. unfold from_cbor. apply from_slice_np. intros f. apply bundle_n
 (* every string read is bounds-checked first: content is only ever obtained through takeN *)
 Theorem length_claims_checked n l x r : takeN n l = Some (x, r) -> n <= Nlen l /\ l = x ++ r /\ Nlen x = n.
 Proof.
-  intros H. pose proof (takeN_some n l x r H) as [Hl Hn]. unfold takeN in H.
+  intros H. pose proof (takeN_some n l x r H) as [Hl Hn]. unfold takeN in H. rewrite at_least_leb in H.
   destruct (n <=? N.of_nat (length l)) eqn:E; [|discriminate]. apply N.leb_le in E. unfold Nlen. auto.
 Qed.
 
